@@ -815,7 +815,17 @@ class BlobStorage(BlobStorageMixin):
                 latest = files[-1]  # depends on ever-increasing tids
                 files.remove(latest)
                 for f in files:
-                    remove_committed(os.path.join(oid_path, f))
+                    filepath = os.path.join(oid_path, f)
+                    # A storage without undo may still keep the revisions
+                    # that are current at or after the pack time
+                    # (MappingStorage does): their files must stay.
+                    serial = self.fshelper.splitBlobFilename(filepath)[1]
+                    try:
+                        self.loadSerial(oid, serial)
+                    except POSKeyError:
+                        remove_committed(filepath)
+                    except ZODB.POSException.Unsupported:
+                        remove_committed(filepath)
             else:
                 remove_committed_dir(oid_path)
                 continue
